@@ -130,10 +130,31 @@ def run(ctx: Ctx) -> None:
     # ---------------------------------------------------------- X3 + O: whole schedules
     enc_cases, enc_impl, chunk_cases = [], [], []
     nsched = 300 if thorough else 80
+    # schedules whose compressed form is cut (or ends) on a byte a decoder might take for a marker: a fragment ending in FF (the "no schedule" reply
+    # carries FF), in 00, in 7F -- found by search (about one schedule in a hundred each), then put through everything below like any other
+    wanted_ends = {"FF": 3, "00": 2, "7F": 1}
+    special = []
+    for _ in range(6000):
+        if not any(wanted_ends.values()):
+            break
+        d_hw = rng.random() < 0.2
+        cand = gen_schedule(rng, d_hw)
+        try:
+            fz = S.full_sched_to_fragz({**dict(S.SCH_FULL_SCHEDULE({"zone_idx": "HW" if d_hw else "03", "schedule": cand})), **({"zone_idx": "00"} if d_hw else {})})
+        except Exception:  # noqa: BLE001
+            continue
+        hit = next((e for e in wanted_ends if wanted_ends[e] and any(f.endswith(e) for f in fz)), None)
+        if hit:
+            wanted_ends[hit] -= 1
+            special.append((d_hw, cand))
     for k in range(nsched):
         dhw = rng.random() < 0.25
         idx = "HW" if dhw else f"{rng.randrange(12):02X}"
         days = gen_schedule(rng, dhw)
+        if special:
+            dhw, days = special.pop()
+            idx = "HW" if dhw else "03"
+            ctx.dist["schedule:a-fragment-ends-in-a-marker-byte"] += 1
         outer = {"zone_idx": idx, "schedule": days}
         try:
             checked = S.SCH_FULL_SCHEDULE(outer)
